@@ -19,8 +19,8 @@ The tree uses the vocabulary of the implementation's public ReprWalker view
 
 import unicodedata
 
-LT_CHARS = '\n\r  '
-_WS_BASE = '\t\x0b\x0c \xa0﻿'
+LT_CHARS = '\n\r\u2028\u2029'
+_WS_BASE = '\t\x0b\x0c \xa0\ufeff'
 
 
 def is_ws(c):
@@ -40,7 +40,7 @@ def is_id_start(c):
 def is_id_part(c):
     if c < '\x80':
         return c.isalnum() or c in '$_'
-    if c in '‌‍':
+    if c in '\u200c\u200d':
         return True
     cat = unicodedata.category(c)
     return cat in _LETTER_CATS or cat in _PART_CATS
@@ -93,7 +93,7 @@ class LineTable(object):
                 if i + 1 < n and src[i + 1] == '\n':
                     i += 1
                 starts.append(i + 1)
-            elif c in '\n  ':
+            elif c in '\n\u2028\u2029':
                 starts.append(i + 1)
             i += 1
         self.starts = starts
@@ -829,6 +829,8 @@ class Parser(object):
         first = self.next_index()
         self.expect_word('function')
         ident = None
+        if declaration and self.is_punct('('):
+            self.error('function_statement_without_name')
         if declaration or not self.is_punct('('):
             ident = self.ident()
         self.expect_punct('(')
